@@ -22,13 +22,15 @@ KINDS = [
     ("script", '<script>var s = \'<a href="{H}">x</a>\';</script>', False),
     ("script2", '<script src="x.js"></script><SCRIPT type="t">document.write("<a href=\'{H}\'>");</SCRIPT>', False),
     ("SCRIPT", '<SCRIPT TYPE="text/javascript">document.write(\'<a href="{H}">x</a>\');</SCRIPT>', False),
+    ("long-attrs-unicode", '<a class="dl" title="' + "ж" * 320 + '" href="{H}">x</a>', True),
+    ("long-attrs-ascii", '<a class="dl" title="' + "t" * 700 + '" href="{H}">x</a>', True),
     ("text", "hello é &amp; &#x2F; world", False),
     ("name-only", '<a name="{H}">x</a>', False),
 ]
 HREFS = ["http://b.com/x", "https://b.com/y?a=1&amp;b=2", "//c.com/z", "rel/page", "../up", "?q=1", "#", "#frag", "javascript:void(0)",
          "mailto:x@y.com", "", " http://b.com/pad ", " http://b.com/nb ", "http://a.notatld/x", "http://a.com/base",
          "HTTP://A.com:80/base", "HTTP://B.COM/x", "http://b.com/a b", "http://b.com/é", "http://b.com&#x2F;e", "/abs#f",
-         "http://b.com/x#f", "&quot;q&quot;", "&nbsp;http://b.com/n", "/a/../b.html", "/dir/../base", "/./abs"]
+         "http://b.com/x#f", "&quot;q&quot;", "&nbsp;http://b.com/n", "/a/../b.html", "/dir/../base", "/./abs", "http://a.com/base#frag", "base#frag"]
 BASES = ["http://a.com/base", "http://a.com/dir/", "http://a.com/base#frag", "HTTP://A.COM/base"]
 NPOS = 3
 KNAMES = [k for k, _, _ in KINDS]
@@ -38,6 +40,9 @@ for i in range(NPOS):
     SLOTS += [("k%d" % i, KNAMES), ("h%d" % i, HREFS)]
 FREE = [("base", BASES), ("canonicalize", [False, True]), ("unique", [False, True]), ("strip_fragment", [False, True])]
 GRID = grid.Grid("html-docs", SLOTS, free=FREE)
+# quick: (unique, strip_fragment) only both-off / both-on
+FREE_Q = [("base", BASES), ("canonicalize", [False, True]), ("uf", ["00", "11"])]
+GRID_Q = grid.Grid("html-docs-quick", SLOTS, free=FREE_Q)
 
 
 def build(case):
@@ -82,6 +87,8 @@ def evaluate(case):
     if rs[1] != expected:
         fails.append((PROP + ".extract", expected, rs[1]))
     base = case.get("base", BASES[0])
+    if "uf" in case:
+        case = dict(case, unique=case["uf"][0] == "1", strip_fragment=case["uf"][1] == "1")
     opts = {"canonicalize": case.get("canonicalize", False), "unique": case.get("unique", False),
             "strip_fragment": case.get("strip_fragment", False)}
     rl = core.guarded(lambda: list(m.links_from_html(base, doc, **opts)))
@@ -146,7 +153,20 @@ def run(chk):
         "duplicates in other spellings, entities), with <= d deviating choices, as str and as UTF-8 bytes, x 4 base URLs x "
         "canonicalize x unique x strip_fragment. Expected hrefs are known by construction." % NPOS
     )
-    failures, tags = grid.run(chk, GRID, d, evaluate, shrink=(GRID.wit, GRID.wsimplify, fails_fn))
+    def wit_q(case):
+        c = dict(case)
+        uf = c.pop("uf", None)
+        if uf is not None:
+            c["unique"], c["strip_fragment"] = uf[0] == "1", uf[1] == "1"
+        return GRID.wit(c)
+
+    if quick:
+        failures, tags = grid.run(chk, GRID_Q, 3, evaluate, shrink=(wit_q, GRID.wsimplify, fails_fn))
+    else:
+        failures, tags = grid.run(chk, GRID, 3, evaluate, shrink=(GRID.wit, GRID.wsimplify, fails_fn))
+        f4, t4 = grid.run(chk, GRID_Q, 4, evaluate, shrink=(wit_q, GRID.wsimplify, fails_fn))
+        for k_, v_ in t4.items():
+            tags[k_] = tags.get(k_, 0) + v_
     n = chk.cov["states"]
     chk.add("transitions", n * 4)
     chk.add("evaluations", n)
